@@ -381,7 +381,7 @@ def run_randomised(X, rank, k, seed, opts):
         return stop_at is not None and len(rec.cb) - 2 == stop_at     # call 0 is the one before the loop
 
     out, errs = randomised_parafac(np.array(X), rank, n_samples=opts.get("n_samples", 40), n_iter_max=k, tol=opts.get("_tol", 0),
-                                   max_stagnation=1000, return_errors=True, random_state=seed,
+                                   max_stagnation=opts.get("max_stagnation", 1000), return_errors=True, random_state=seed,
                                    callback=cb if opts.get("_cb") else None, init=opts.get("init", "random"))
     rec.final = _cp_it(out)
     rec.errors = [float(e) for e in errs]
@@ -547,6 +547,20 @@ def configs(tier):
         ("randomised_cb_stop", "tensorly.decomposition.randomised_parafac", run_randomised, dict(_cb=True, _stop_at=2), G, [3], [6]),
         ("randomised_cb", "tensorly.decomposition.randomised_parafac", run_randomised, dict(_cb=True), G, [3], K[-1:]),
         ("randomised_tol", "tensorly.decomposition.randomised_parafac", run_randomised, dict(_tol=1e-2), G, [3], KT),
+        # round 7: nothing but the callback asks for the error (tol=0, max_stagnation=0): rec_errors stays empty, every in-loop callback must
+        # still receive the error of the iterate it is handed
+        ("randomised_cb_nostag", "tensorly.decomposition.randomised_parafac", run_randomised, dict(_cb=True, max_stagnation=0), G, [3, 4], [4]),
+        ("randomised_cb_nostag_stop", "tensorly.decomposition.randomised_parafac", run_randomised, dict(_cb=True, max_stagnation=0, _stop_at=1), G, [3], [5]),
+        # round 7: EXACT-FIT data (rank-1 / exactly low-rank, run long enough to fit to rounding): the quantity under each shortcut's square
+        # root is then 0 up to rounding of either sign - the abs guard is what keeps the value finite; the finiteness predicate sees
+        # every entry of the list (and the shorter prefix run)
+        ("constrained_nn_exact", "tensorly.decomposition.constrained_parafac", run_constrained, dict(non_negative=True, _rank=1), ["nn_lowrank"], o234, [4, 10]),
+        ("parafac_exact", "tensorly.decomposition.parafac", run_parafac, dict(init="random", _rank=1), ["lowrank"], o234, [4, 10]),
+        ("parafac_exact_norm", "tensorly.decomposition.parafac", run_parafac, dict(init="svd", _rank=1, normalize_factors=True), ["lowrank", "nn_lowrank"], [3], [6]),
+        ("nn_parafac_exact", "tensorly.decomposition.non_negative_parafac", run_nn_parafac, dict(init="svd", _rank=1), ["nn_lowrank"], [3], [30]),
+        ("hals_exact", "tensorly.decomposition.non_negative_parafac_hals", run_hals, dict(init="random", _rank=1), ["nn_lowrank"], o234, [4, 10]),
+        ("tucker_exact", "tensorly.decomposition.tucker", run_tucker, dict(init="svd"), ["lowrank"], o234, [1, 3]),
+        ("parafac2_exact", "tensorly.decomposition.parafac2", run_parafac2, dict(_rank=1, linesearch=False), ["lowrank"], [3], [4, 10]),
         ("cmtf", "tensorly.decomposition._cmtf_als.coupled_matrix_tensor_3d_factorization", run_cmtf, dict(init="svd"), G, [3], K),
         ("cmtf_tol", "tensorly.decomposition._cmtf_als.coupled_matrix_tensor_3d_factorization", run_cmtf, dict(init="svd", _tol=1e-3), G, [3], KT),
         ("cmtf_norm", "tensorly.decomposition._cmtf_als.coupled_matrix_tensor_3d_factorization", run_cmtf, dict(init="random", normalize_factors=True), G, [3], K),
@@ -577,6 +591,7 @@ def concretise(opts, X, rank, rs):
     """fill the data-dependent options (mask, fixed modes, coupled matrix)"""
     o = dict(opts)
     n = X.ndim
+    o.pop("_rank", None)
     if o.pop("_mask", False):
         m = (rs.uniform(size=X.shape) < 0.8).astype(np.float64)
         m.flat[0] = 1.0; m.flat[-1] = 0.0
@@ -1177,6 +1192,181 @@ def normalize_cases(col, tier, rng):
                             "C06_normalize_keeps_tensor", observed=after, expected=before)
 
 
+
+# ----------------------------------------------------------------------------- round 7: one iteration on data (KSweepV, KIter)
+def _jump_of(text):
+    """(accepted?, jump) of the LAST line-search decision printed by parafac(verbose=1)"""
+    out = None
+    for ln in text.splitlines():
+        if ln.startswith("Accepted line search jump of "):
+            out = (True, float(ln[len("Accepted line search jump of "):].rstrip(". ")))
+        elif ln.startswith("Line search failed for jump of "):
+            out = (False, float(ln[len("Line search failed for jump of "):].rstrip(". ")))
+    return out
+
+
+def iter_cases(col, tier, rng):
+    """one iteration of constrained_parafac / non_negative_parafac_hals on data (KSweepV: the model computes every MTTKRP of the sweep and
+    the inline shortcut itself; tape = the factors after the iteration) and of parafac with non-unit weights, end-of-iteration
+    normalisation, sparsity and line search (KIter: Model/Errors.v:fl_iteration; the pre-normalisation state comes from the callback,
+    the post-sweep factors of a line-search iteration from the run without line search, jump and decision from the verbose output)"""
+    from tensorly.decomposition import parafac, constrained_parafac, non_negative_parafac_hals
+    chk = col.chk
+    quick = tier == "quick"
+    shapes = SHAPES_Q if quick else SHAPES_T
+
+    def pick(order):
+        return shapes[order][rng.randrange(len(shapes[order]))]
+
+    def fl(fs):
+        return [np.array(f, dtype=float) for f in fs]
+
+    # ---- constrained_parafac (variant 1) and non_negative_parafac_hals (variant 2)
+    con_opts = [dict(non_negative=True), dict(l2_reg=0.2), dict(non_negative=True, fixed_modes=[0]), dict(l1_reg=0.1)]
+    hals_opts = [dict(), dict(fixed_modes="last"), dict(sparsity_coefficients=[0.2, 0.1, 0.3, 0.1]), dict(fixed_modes="last", _winit=True), dict(nn_modes={0})]
+    plan = [(1, o) for o in con_opts] + [(2, o) for o in hals_opts]
+    for variant, o0 in plan:
+        for order in ([3] if quick else [2, 3, 4]) if variant == 1 or "sparsity_coefficients" in o0 else ([rng.choice([2, 3, 4])] if quick else [2, 3, 4]):
+            shape = pick(order) if "fixed_modes" not in o0 else (SHAPES_EQ[order][0] if quick else rng.choice(SHAPES_EQ[order] + SHAPES_EQ_T[order]))
+            seed = rng.randrange(1, 2 ** 31 - 1)
+            rs = np.random.RandomState(seed)
+            X = make_tensor("nonneg" if rng.random() < 0.6 else "nn_integer", shape, 2, rs)
+            n = X.ndim
+            R = 2
+            o = dict(o0)
+            if o.get("fixed_modes") == "last":
+                o["fixed_modes"] = [n - 1]
+            if isinstance(o.get("sparsity_coefficients"), list):
+                o["sparsity_coefficients"] = o["sparsity_coefficients"][:n]
+            winit = o.pop("_winit", False)
+            fixed = list(o.get("fixed_modes") or [])
+            if variant == 1:
+                fixed = [m for m in fixed if m != n - 1]
+            ms = [m for m in range(n) if m not in fixed]
+            outs = {}
+            ok = True
+            for k in (1, 2, 3):
+                def call(k=k):
+                    if variant == 1:
+                        return constrained_parafac(np.array(X), R, n_iter_max=k, tol_outer=0, return_errors=True, random_state=seed, init="random", **o)
+                    kw = dict(o)
+                    kw["init"] = rand_cp_init(X.shape, R, np.random.RandomState(seed), nonneg=True, weights=winit) if (winit or fixed) else "random"
+                    return non_negative_parafac_hals(np.array(X), R, n_iter_max=k, tol=1e-300, return_errors=True, random_state=seed, **kw)
+                st, res = C.call_impl(call, timeout=60)
+                if st != "ok":
+                    ok = False
+                    chk.hist("skipped", f"iter_cases variant {variant}: {str(res)[:50]}")
+                    break
+                outs[k] = res
+            if not ok:
+                continue
+            for k in (2, 3):
+                (w_b, f_b), _ = outs[k - 1]
+                (w_a, f_a), errs = outs[k]
+                if len(errs) != k:
+                    continue
+                w_ = None if w_a is None else np.array(w_a, dtype=float)
+                fb, fa, rep_ = fl(f_b), fl(f_a), float(errs[-1])
+                entry = "tensorly.decomposition.constrained_parafac" if variant == 1 else "tensorly.decomposition.non_negative_parafac_hals"
+                inputs = {"entry_point": entry, "tensor": X, "rank": R, "n_iter_max": k, "seed": seed, "options": {kk: (sorted(vv) if isinstance(vv, set) else vv) for kk, vv in o.items()},
+                          "weighted_init": winit, "iteration": k - 1}
+                col.add(lambda P, w_=w_, fb=fb, fa=fa, rep_=rep_, ms=ms, variant=variant, X=X: (
+                    f"(KSweepV {C.nat(variant)} {P.t(X)} {C.nat(R)} {P.opt_w(w_)} {P.ts(fb)} {P.ts(fa)} {C.nat_list(ms)} {P.num(rep_)})"),
+                    dict(inputs=inputs, what=("constrained_parafac" if variant == 1 else "non_negative_parafac_hals") +
+                         ": one iteration on data (the model's own MTTKRPs + the inline shortcut) vs the reported value", entry=entry))
+                chk.count(key=("iter", variant, X.shape, tuple(ms), k), nontrivial=True)
+                chk.hist("iteration_on_data", "constrained" if variant == 1 else "hals")
+
+    # ---- parafac: ordinary iterations with weights / normalisation / sparsity, and the first line-search iteration (it = 6)
+    def run_pf(X, R, k, seed, o, ls, want_cb):
+        rec = []
+
+        def cb(dec, err=None):
+            if isinstance(dec, tuple) and not hasattr(dec, "factors"):
+                dec = dec[0]
+            rec.append((None if dec[0] is None else np.array(dec[0], dtype=float), fl(dec[1]), None if err is None else float(err)))
+            return False
+        buf = io.StringIO()
+        with contextlib.redirect_stdout(buf):
+            out, errs = parafac(np.array(X), R, n_iter_max=k, tol=0, return_errors=True, random_state=seed, init="random",
+                                callback=cb if want_cb else None, linesearch=ls, verbose=1 if ls else 0, **o)
+        if o.get("sparsity"):
+            out = out[0]
+        return (None if out[0] is None else np.array(out[0], dtype=float), fl(out[1])), [float(e) for e in errs], rec, buf.getvalue()
+
+    pf_opts = [dict(normalize_factors=True), dict(normalize_factors=True, l2_reg=0.1), dict(sparsity=3), dict(normalize_factors=True, fixed_modes=[0]),
+               dict(normalize_factors=True, sparsity=2)]
+    for o in pf_opts:
+        for order in ([rng.choice([3, 4])] if quick else [2, 3, 4]):
+            shape = pick(order)
+            seed = rng.randrange(1, 2 ** 31 - 1)
+            rs = np.random.RandomState(seed)
+            X = make_tensor(rng.choice(["generic", "integer", "lowrank"]), shape, 3, rs)
+            n = X.ndim
+            R = 2
+            ms = [m for m in range(n) if m not in (o.get("fixed_modes") or [])]
+            card = o.get("sparsity")
+            runs = {}
+            for k in (1, 2, 3):
+                st, res = C.call_impl(run_pf, X, R, k, seed, o, False, True, timeout=60)
+                if st != "ok":
+                    chk.hist("skipped", f"iter_cases parafac: {str(res)[:50]}")
+                    break
+                runs[k] = res
+            for k in (2, 3):
+                if k not in runs or k - 1 not in runs or len(runs[k][1]) != k or not runs[k][2]:
+                    continue
+                (w0, f0), (w2, f2, e2), rep_ = runs[k - 1][0], runs[k][2][-1], runs[k][1][-1]
+                inputs = {"entry_point": "tensorly.decomposition.parafac", "tensor": X, "rank": R, "n_iter_max": k, "seed": seed, "options": dict(o), "iteration": k - 1}
+                col.add(lambda P, X=X, w0=w0, f0=f0, w2=w2, f2=f2, rep_=rep_, ms=ms, card=card, k=k: (
+                    f"(KIter {P.t(X)} {C.nat(R)} {optnat(card)} {P.opt_w(w0)} {P.ts(f0)} {P.opt_w(w0)} {P.ts(f0)} {P.ts(f2)} {C.nat_list(ms)} false {C.nat(k - 1)} true "
+                    f"{P.num(0.0)} false {P.opt_w(w2)} {P.ts(f2)} {P.num(rep_)})"),
+                    dict(inputs=inputs, what="parafac: one iteration on data with weights (state before = the normalised state the shorter run returns, "
+                         "state after = the one handed to the callback) vs the reported value", entry="tensorly.decomposition.parafac"))
+                chk.count(key=("iter", "parafac", X.shape, tuple(sorted(o)), k), nontrivial=True)
+                chk.hist("iteration_on_data", "parafac")
+    ls_opts = [dict(), dict(normalize_factors=True), dict(sparsity=3)]
+    for o in ls_opts:
+        seen = {True: 0, False: 0}
+        want = 1 if quick else 2
+        for attempt in range(14 if quick else 30):
+            if seen[True] >= want and seen[False] >= want:
+                break
+            order = rng.choice([3, 3, 4, 2])
+            shape = pick(order)
+            seed = rng.randrange(1, 2 ** 31 - 1)
+            rs = np.random.RandomState(seed)
+            X = make_tensor(rng.choice(["generic", "integer"]), shape, 3, rs)
+            R = 2
+            ms = list(range(X.ndim))
+            card = o.get("sparsity")
+            st, C7 = C.call_impl(run_pf, X, R, 7, seed, o, True, True, timeout=60)
+            if st != "ok" or len(C7[1]) != 7 or not C7[2]:
+                continue
+            dec = _jump_of(C7[3])
+            if dec is None or seen[dec[0]] >= want:
+                continue
+            st, A6 = C.call_impl(run_pf, X, R, 6, seed, o, True, False, timeout=60)
+            st2, B7 = C.call_impl(run_pf, X, R, 7, seed, o, False, True, timeout=60)
+            if st != "ok" or st2 != "ok" or not B7[2]:
+                continue
+            seen[dec[0]] += 1
+            (w0, f0), f1, (w2, f2, e2), rep_ = A6[0], B7[2][-1][1], C7[2][-1], C7[1][-1]
+            inputs = {"entry_point": "tensorly.decomposition.parafac", "tensor": X, "rank": R, "n_iter_max": 7, "seed": seed, "options": dict(o, linesearch=True),
+                      "iteration": 6, "observed_linesearch_decision": {"accepted": dec[0], "jump": dec[1]}}
+            for tape in ((True, False) if dec[0] else (True,)):
+                col.add(lambda P, X=X, w0=w0, f0=f0, f1=f1, w2=w2, f2=f2, rep_=rep_, ms=ms, card=card, dec=dec, tape=tape: (
+                    f"(KIter {P.t(X)} {C.nat(R)} {optnat(card)} {P.opt_w(w0)} {P.ts(f0)} {P.opt_w(w0)} {P.ts(f0)} {P.ts(f1)} {C.nat_list(ms)} true {C.nat(6)} {C.boolc(tape)} "
+                    f"{P.num(dec[1])} {C.boolc(dec[0])} {P.opt_w(w2)} {P.ts(f2)} {P.num(rep_)})"),
+                    dict(inputs=inputs, advisory=not tape,
+                         what=("parafac: the first line-search iteration on data (snapshot = state before, post-sweep factors from the run without line search, "
+                               "printed decision; the candidate of an accepted jump is the observed state) vs the state handed to the callback and the reported value") if tape else
+                              ("parafac: accepted line-search jump: the TRANSCRIBED extrapolation last + (current - last) * jump with the printed jump vs the observed "
+                               "candidate (advisory: a different extrapolation rule does not concern C06)"),
+                         entry="tensorly.decomposition.parafac"))
+            chk.count(key=("iter", "parafac_ls", X.shape, tuple(sorted(o)), dec[0]), nontrivial=True)
+            chk.hist("iteration_on_data", f"parafac line search: {'accepted' if dec[0] else 'rejected'}")
+
 # ----------------------------------------------------------------------------- main
 def gen_runs(tier, rng):
     shapes = SHAPES_Q if tier == "quick" else SHAPES_T
@@ -1195,6 +1385,10 @@ def gen_runs(tier, rng):
                 picks = [(s_, kinds[(j + rot) % len(kinds)]) for j, s_ in enumerate(shp)]
             if name in SLOW_CONFIGS:
                 picks = picks[:2]
+            if "_exact" in name and name not in SLOW_CONFIGS and tier == "quick":
+                # exact-fit data: whether rounding makes the quantity under the square root negative depends on the draw - several seeds
+                # (run() judges the further ones by the Python predicates only)
+                picks = picks + [(shp[rng.randrange(len(shp))], kinds[rng.randrange(len(kinds))]) for _ in range(3)]
             if name in LS_CONFIGS:
                 # several seeds: accepted AND rejected jumps at the last iteration are both wanted (decisions are data dependent);
                 # run() stops drawing further seeds for a configuration once both have been seen
@@ -1207,6 +1401,7 @@ def gen_runs(tier, rng):
                 rank = 2 if min(shape) < 3 or rng.random() < 0.5 else 3
                 if name.startswith(("parafac2", "class_Parafac2")):
                     rank = min(rank, shape[2], shape[1])
+                rank = opts.get("_rank", rank)
                 yield name, entry, runner, opts, kind, shape, rank, seed, ks, None
 
 
@@ -1285,7 +1480,7 @@ def _install_local_known():
 KIND_COST = {"KCP": (0.12, 0.32), "KTucker": (0.31, 0.93), "KParafac2": (0.5, 1.9), "KHooiHyp": (0.31, 0.9), "KTR": (0.32, 1.45), "KErrCalcFull": (0.12, 0.35),
              "KNormalize": (0.16, 0.16), "KHooi": (0.13, 0.33), "KCmtf": (0.31, 1.1), "KTrace": (0.013, 0.04), "KTuckerNormalize": (0.26, 0.26), "KEvents": (0.025, 0.09),
              "KSparsify": (0.08, 0.14), "KCPfast": (0.24, 0.7), "KSLoop": (0.015, 0.2), "KErrCalc": (0.18, 0.5), "KP2Len": (0.026, 0.24), "KP2Events": (0.09, 0.78),
-             "KDense": (0.1, 0.3)}
+             "KDense": (0.1, 0.3), "KSweepV": (0.3, 0.9), "KIter": (0.35, 1.0)}
 
 
 def balanced(cases, nsh):
@@ -1322,6 +1517,7 @@ def run(chk):
     skipped = 0
     nruns = 0
     ls_seen = {}
+    ex_seen = {}
     for (name, entry, runner, opts, kind, shape, rank, seed, ks, X_pinned) in itertools.chain(corpus_runs(), gen_runs(chk.tier, rng)):
         light = False
         if X_pinned is not None:
@@ -1336,6 +1532,11 @@ def run(chk):
             seen["n"] += 1
             if seen["n"] > 1:
                 ks = [(7, 9, 13)[seen["n"] % 3]]
+                light = True
+        if "_exact" in name and name not in SLOW_CONFIGS and chk.tier == "quick" and X_pinned is None:
+            n_ex = ex_seen.get((name, len(shape)), 0)
+            ex_seen[(name, len(shape))] = n_ex + 1
+            if n_ex >= 1:
                 light = True
         rs = np.random.RandomState(seed)
         X = make_tensor(kind, shape, rank, rs) if X_pinned is None else np.array(X_pinned, dtype=np.float64)
@@ -1353,6 +1554,11 @@ def run(chk):
             st, rec = one_run(runner, X, rank, k, seed, o)
             nruns += 1
             chk.hist("algorithm", name); chk.hist("order", len(shape)); chk.hist("data", kind); chk.hist("outcome", st)
+            if st != "ok" and "math domain error" in str(rec):
+                # math.sqrt of a negative number inside an error formula (HOOI's shortcut uses math.sqrt): no finite error value can be
+                # reported for a valid input - the finiteness clause, not a degenerate problem
+                chk.finding(entry, describe(name, entry, X, kind, rank, k, seed, o), f"{name}: computing the reported error raised {rec} "
+                            "(square root of a negative quantity: no finite error value is reported)", "C06_finite", observed=str(rec))
             if st != "ok":
                 # degenerate problems (singular Gram matrices, ...) raise, loaded machines time out: outside the premise, counted
                 skipped += 1
@@ -1362,7 +1568,7 @@ def run(chk):
             if series(rec) and not rec.squared_unnormalised and series(rec)[-1] > 0.999:
                 chk.hist("degenerate_iterate(error ~ 1)", name)
             nf = check_run(col, name, entry, X, kind, rank, k, seed, o, rec, light=light_k and not (light and rec.ls and rec.ls[-1] is False))
-            if light_k and not light:
+            if (light_k and not light) or (light and "_exact" in name):
                 continue_light = True
             else:
                 continue_light = False
@@ -1373,7 +1579,8 @@ def run(chk):
                 col.add(lambda P, lit_len=lit_len: lit_len, dict(inputs=describe(name, entry, X, kind, rank, k, seed, o), what="PARAFAC2 skeleton: number of reported values",
                                                                   entry=entry))
                 chk.count(key=(name, "p2len", k), nontrivial=k > 6)
-            if name.startswith(("tucker", "partial_tucker", "nn_tucker", "cmtf", "randomised")) and "_tol" not in o and rec.errors is not None and not continue_light:
+            if (name.startswith(("tucker", "partial_tucker", "nn_tucker", "cmtf", "randomised")) and "_tol" not in o and rec.errors is not None and not continue_light
+                    and not name.startswith("randomised_cb_nostag")):      # nothing is recorded there (tol = 0, max_stagnation = 0): callbacks only
                 # one-value-per-iteration loops, observable projection of Model/Errors.v:s_loop: number of recorded values (callback stop included)
                 stop_at = o.get("_stop_at") if o.get("_cb") else None
                 lit_s = f"(KSLoop {C.nat(k)} {optnat(stop_at)} {C.nat(len(rec.errors))})"
@@ -1406,6 +1613,7 @@ def run(chk):
     parafac2_error_cases(col, chk.tier, rng)
     normalize_cases(col, chk.tier, rng)
     trace_cases(col, chk.tier, rng)
+    iter_cases(col, chk.tier, rng)
     try:
         p2_event_cases(col, chk.tier, rng)
     except AttributeError as ex:     # a renamed helper cannot be interposed any more: skipped and counted, never a verdict
@@ -1445,6 +1653,11 @@ def run(chk):
         m = col.meta[i]
         if m.get("expect_fail"):
             continue        # the Python predicate failed on the same input: reported as a finding (classified there)
+        if m.get("advisory"):
+            # the transcription of a step the property does not constrain (the extrapolation rule of the line search) no longer matches: noted, never a verdict
+            chk.hist("advisory_mismatch", m["what"][:60])
+            chk.notes.append("advisory: " + m["what"])
+            continue
         chk.disagreement("corr:C06 (Model/Errors.v vs reported errors of " + m["entry"] + ")", {"what": m["what"], "inputs": m["inputs"]})
     unexpected_agree = [i for i, m in enumerate(col.meta) if m.get("expect_fail") and i not in failing]
     if unexpected_agree and not broken:
